@@ -75,7 +75,7 @@ class Down(object):
             self.out += b'this is not a reply\r\n'
             self.ev.set()
             return 'malformed'
-        text = 'r%d %s' % (a, stage) + (' m%d' % self.marker if stage == 'eod' else '')
+        text = 'r%d %s' % (a, stage) + (' m%d' % self.marker if stage in ('mail', 'rcpt', 'data', 'eod') and self.marker else '')
         if stage in ('ehlo',) and a == 250:
             lines = ['downstream'] + (['PIPELINING'] if self.pipelining else []) + ['8BITMIME', 'SMTPUTF8']
             self.out += ''.join('250%s%s\r\n' % ('-' if k < len(lines) - 1 else ' ', ln) for k, ln in enumerate(lines)).encode()
@@ -104,6 +104,9 @@ class Down(object):
                 elif verb == b'MAIL':
                     self.nrcpt = 0
                     self.acc = []
+                    import re as _re
+                    mm = _re.search(rb'<sender(\d+)@', line)
+                    self.marker = int(mm.group(1)) if mm else 0
                     self.act('mail', 0)
                 elif verb == b'RCPT':
                     r = self.act('rcpt', self.nrcpt)
@@ -186,8 +189,8 @@ class RelayRun(object):
             Event().wait()
         return Down(self, self.scripts[min(k, len(self.scripts) - 1)], self.lmtp, self.pipelining, k)
 
-    def attempt(self, req, nrcpt, sender='sender@a.example'):
-        env = Envelope(sender, ['rcpt%d-%d@b.example' % (req, i) for i in range(nrcpt)])
+    def attempt(self, req, nrcpt, sender=None):
+        env = Envelope(sender or 'sender%d@a.example' % req, ['rcpt%d-%d@b.example' % (req, i) for i in range(nrcpt)])
         env.parse(b'Subject: req %d\r\nX-Marker: m%d\r\n\r\nbody of request %d\r\n' % (req, req, req))
         self.log(t='call', req=req, nrcpt=nrcpt)
 
